@@ -230,6 +230,7 @@ def build_lpm(backend, QC, N):
         main2.append(s)
     pool_kind = POOL_KIND[backend]
     c = cfg.Compiler(prog, '$main', params, QC, adapters=adapters, ntasks=N, pool_kind=pool_kind)
+    c.pyconst = {'backend': backend}
     END = prog.newloc('$main', 'END')
     ENDX = {kind: prog.newloc('$main', 'END-' + KNAME[kind]) for kind in KNAME}
     ctx = cfg.Ctx(lambda: END, _no_break, lambda kind: ENDX[kind])
